@@ -38,6 +38,10 @@ CHECKS = {
          "For each of 24 exported Packet/Frame/Header/Option view types: random bytes, valid packets truncated at every offset, and single-field boundary corruptions; on new_checked Ok every accessor applicable to the packet's own message type, the Repr parser and the pretty-printer run under catch_unwind; DNS names drained with an iteration cap. Exhaustive phase over 148 seed packets: every truncation and boundary byte value at every offset < 64.",
          "Accessor-applicability table follows the accessors' docs and smoltcp's own callers; safe Rust turns out-of-buffer reads into panics; RPL/IPsec views not compiled in.",
          "DESIGN.md 3/C07"),
+ "C08": ("differential PBT vs independent RFC 1071 implementation (exhaustive over length x alignment) + metamorphic corruption of received packets + independent verification of emitted frames",
+         "(a) wire::checksum::data/combine/pseudo_header against an independent implementation on every length 0..=2048 (quick) / 0..=65535 (thorough) x alignment 0..7 x content classes incl. single-octet position weights, plus random buffers; (b) every frame emitted in the other simulation scenarios verified by the independent decoder (checksum verdicts); (c) valid packets for bound UDP/TCP/ICMP sockets with 1-2 bits flipped in a checksummed region or a zero UDP checksum, under drawn ChecksumCapabilities: when the independent verifier finds the checksum invalid and rx verification is on, no socket state/queue may change and nothing may be emitted.",
+         "Independent one's-complement implementation in vkit::indep; cancelling double flips and structural damage are recognised and not claimed.",
+         "DESIGN.md 3/C08"),
  "C09": ("model-based PBT: op sequences on UDP/ICMP/raw sockets vs queue models on wire and receive side, independent codecs",
          "Dual-stack node with 1-5 UDP/ICMP/raw sockets of drawn ring geometry (tiny rings favoured), up to 150 ops (send*/recv*/peek* with short/exact/long buffers, bind/close, polls under transmit budgets 0..3, neighbours answering ARP/NS after delays or never, injected valid datagrams incl. fragments and ICMP errors). Wire oracle: per socket an in-order duplicate-free subsequence of accepted datagrams, unmodified, exactly once after the tail phase when resolvable and fitting. Receive oracle: exact demultiplexing model, each datagram once, whole, right metadata, Truncated never silent. 13 mutants killed (sub-agent report). One open finding (neighbour-discovery starvation).",
          "Trusts vkit::indep codecs + Reasm4 and the demultiplexing model read off process_udp/accepts; head-of-line blocking behind an unresolvable datagram is permitted.",
@@ -58,6 +62,10 @@ CHECKS = {
          "Scenario mixtures arm every timer source (TCP retransmit/delayed ACK/keep-alive/timeout/zero-window probe/TIME-WAIT against scripted peers, DHCP, DNS with several servers, unresolved neighbours, pending fragments under back-pressure, SLAAC with/without RAs) on Ethernet/IP/802.15.4; after each step, with no frame waiting, polls at now+1us, midpoint and d-1us (d = poll_at) must transmit nothing but IGMP/MLD; a poll that did no I/O must leave the deadline > now (one silent re-poll tolerated). 8 mutants killed (sub-agent report).",
          "Armed-source labels are inferred from public getters; silent timers (TIME-WAIT expiry, SLAAC sync) only visible in the opt-in strict mode.",
          "DESIGN.md 3/C13"),
+ "C20": ("differential/round-trip PBT: two 802.15.4 interfaces vs raw-IP twin, independent 802.15.4/6LoWPAN (FRAG, IPHC, NHC) codec both ways, bounded-exhaustive fragment permutations",
+         "UDP (all port classes), ICMPv6 echo and TCP between link-local/global/multicast addresses over 802.15.4 with extended/short addresses, hop limits, payload 0..4200, back-to-back datagrams under back-pressure, fragments permuted/duplicated (all permutations x single duplications for 2-4 fragments); every frame <= 127 octets and decoded by an independent decompressor into exactly the datagram the script defines; deliveries equal what was sent and what the raw-IP twin delivers, once or (beyond reassembler limits) not at all; an independent IPHC encoder feeds every legal compression mode incl. stateful contexts to the receiver; adversarial FRAG1/FRAGN/IPHC/NHC frames must not panic. 10 mutants killed (sub-agent report).",
+         "Trusts the independent RFC 4944/6282 codec (encoder and decoder cross-asserted) and the reference reassembler; frames carry no FCS; elided UDP checksums in fragmented datagrams are outside what the stack itself sends.",
+         "DESIGN.md 3/C20"),
  "C14": ("model-based PBT (VecDeque model) + bounded-exhaustive op-sequence enumeration",
          "Random op sequences (<=200 ops, capacities 0..=4096) on RingBuffer and PacketBuffer compared with a VecDeque model after every operation, plus exhaustive enumeration of all op sequences up to depth 4 (quick) / 5 (thorough) over a small alphabet for small capacities. Exploration, not proof: exhaustive only inside the stated small sub-space.",
          "Trusts the VecDeque model and the stated preconditions of the asserted operations; contents of unallocated slots compared only when written through the unallocated interface.",
